@@ -198,6 +198,17 @@ def r03_3(ctx: Ctx):
                             bad.append((n, "accumulates nfev of an optimiser whose objective " + why))
                             continue
                     bad.append((n, f"accumulator changed by `{norm(n)}`"))
+        # every evaluation the class makes must be covered by the accumulator: no evaluating call outside the counted optimiser run
+        for f in ctx.prog.functions_in(ci):
+            if f.parent is not None:
+                continue
+            for cs in ctx.res.callsites(f):
+                if cs.kind not in ("call", "ctor") or not isinstance(cs.node, ast.Call):
+                    continue
+                if cs.external and cs.external.startswith("scipy.optimize."):
+                    continue
+                if any(ctx.eff.has(t, "EVAL") for t in cs.targets):
+                    bad.append((cs.node, f"`{norm(cs.node)[:80]}` in {f.short} evaluates the objective outside the optimiser run whose nfev feeds the accumulator: that call is made but never reported"))
         for n, why in bad:
             obs.append(ctx.ob("R03.3", o, n, status=VIOLATION, detail=f"{ci.name}.n_evaluations: {why}"))
         if not bad:
